@@ -4,8 +4,8 @@ import itertools, json, os
 import vlib
 from vlib import hexs
 
-REQUIRED = ['send_plain_no_fault', 'recode_qp_no_fault', 'recode_qp_legal', 'need_recode_sound',
-            'legal_data_plain', 'terminates_partial', 'no_fault_partial', 'legal_data_partial']
+REQUIRED = ['send_plain_no_fault', 'recode_qp_no_fault', 'need_recode_sound', 'legal_data_plain',
+            'terminates_partial', 'no_fault_partial', 'legal_data_partial']
 
 ASSUMPTIONS = [
     'message size below 2^31 (int llen / unsigned idx do not wrap)',
